@@ -166,3 +166,70 @@ def retry_until_accept_native(vc):
         vc.inputs[f"variance_width_{width}"] = [v_hat, se]
         worst = max(worst, abs(v_hat - 1.0) / (se + 0.002))
     vc.ensures("long_run_variance_is_the_target_variance", worst < 5.0)
+
+
+@bounded("C01", "oblique_reflection_native", native_runs=1)
+def oblique_reflection_native(vc):
+    """STRICT reversibility check of the proposal of PcaChain / EnsembleSampler *with bounds*.  Both move along an oblique line
+    (a principal direction; the line through two walkers) and fold the candidate back into the box coordinate by coordinate
+    (Bounds.reflect).  The acceptance rule min(1, pi(y)/pi(x)) [times z^(n-1)] is the Metropolis-Hastings probability only for a
+    proposal whose reverse move exists with the same density.  After a single fold the way back from y runs along the MIRRORED
+    direction, which the sampler at y never proposes: for a candidate y reached from x with one fold, no point of the folded line
+    through y along the same direction is x (recorded finding; a coordinate-aligned direction, as in GibbsChain, is unaffected)."""
+    from inference.mcmc import PcaChain
+    seed = vc.int("seed", lo=0, hi=1000)
+    rng = np.random.default_rng(seed)
+    lo, hi = np.array([-1.0, -1.0]), np.array([1.0, 1.0])
+    post = lambda t: float(-0.5 * np.sum(np.asarray(t, dtype=float) ** 2))
+    ch = PcaChain(posterior=post, start=np.array([0.7, 0.1]), bounds=(lo, hi), display_progress=False)
+    e = np.array([np.cos(0.6), np.sin(0.6)])                  # an oblique unit direction (a principal component of a correlated target)
+    x = np.array([0.7 + 0.2 * rng.uniform(), 0.1 * rng.normal()])
+    s = 0.5 + 0.2 * rng.uniform()                              # far enough to cross the upper wall of coordinate 0 exactly once
+    y = np.asarray(ch.process_proposal(x + s * e), dtype=float)
+    crossed = (x + s * e)[0] > hi[0] and abs((x + s * e)[1]) < 1
+    # every point the sampler can propose from y along +-e, folded by the sampler's own map: does the set contain x?
+    ts = np.linspace(-2.5, 2.5, 200001)
+    back = np.array([np.asarray(ch.process_proposal(y + t * e), dtype=float) for t in ts[::200]])      # coarse scan ...
+    k = int(np.argmin(np.linalg.norm(back - x, axis=1)))
+    fine = np.linspace(ts[::200][max(k - 1, 0)], ts[::200][min(k + 1, back.shape[0] - 1)], 4001)      # ... refined around the closest point
+    backf = np.array([np.asarray(ch.process_proposal(y + t * e), dtype=float) for t in fine])
+    dist = float(np.min(np.linalg.norm(backf - x, axis=1)))
+    vc.inputs["closest_approach_of_the_reverse_proposal_line_to_the_start"] = dist
+    vc.ensures("setup_crosses_one_wall_once", bool(crossed))
+    vc.ensures("reverse_move_of_a_folded_oblique_proposal_exists", dist < 1e-3)
+
+
+@bounded("C01", "narrow_box_native", native_runs=4)
+def narrow_box_native(vc):
+    """a box that is narrow relative to the target (the density is nearly flat inside it): almost every proposal is accepted whatever
+    its width, so the width adaptation keeps enlarging it.  The long-run law must still be the (nearly uniform) truncated target --
+    not a chain that ends up sitting on a wall because a proposal of width 1e40 cannot be folded back into a box of width 2 in
+    floating point"""
+    from inference.mcmc import GibbsChain, PcaChain
+    from contracts.common import quiet
+    kind = vc.choice("sampler", ["gibbs", "pca"])
+    seed = vc.int("seed", lo=0, hi=1000)
+    d = 2
+    sd = vc.choice("target_sd_over_box_half_width", [3.0, 10.0])
+    post = lambda t: float(-0.5 * np.sum(np.asarray(t, dtype=float) ** 2) / sd ** 2)
+    lo, hi = -np.ones(d), np.ones(d)
+    if kind == "gibbs":
+        ch = GibbsChain(posterior=post, start=np.array([0.1, 0.2]), widths=np.array([0.5, 0.5]), display_progress=False)
+        for i in range(d):
+            ch.set_boundaries(i, (lo[i], hi[i]))
+    else:
+        ch = PcaChain(posterior=post, start=np.array([0.1, 0.2]), widths=np.array([0.5, 0.5]), bounds=(lo, hi), display_progress=False)
+    ch.rng = np.random.default_rng(seed)
+    for i, p in enumerate(ch.params):
+        p.rng = np.random.default_rng(seed * 10 + i)
+    with np.errstate(all="ignore"):
+        quiet(ch.advance, 12000)
+    x = np.array([ch.get_parameter(i, burn=6000) for i in range(d)]).T
+    # truncated N(0, sd^2) on [-1, 1]: mean 0, variance close to 1/3 (exactly: below it by O(1/sd^2))
+    g = np.linspace(-1, 1, 20001)
+    w = np.exp(-0.5 * g ** 2 / sd ** 2)
+    var_true = float(np.sum(w * g ** 2) / np.sum(w))
+    vc.inputs["proposal_widths"] = [float(p.sigma) for p in ch.params]
+    vc.inputs["sample_mean_and_variance"] = [[float(v) for v in x.mean(axis=0)], [float(v) for v in x.var(axis=0)]]
+    vc.ensures("long_run_law_is_the_truncated_target", bool(np.all(np.abs(x.mean(axis=0)) < 0.1) and np.all(np.abs(x.var(axis=0) - var_true) < 0.15 * var_true)))
+    vc.ensures("samples_do_not_pile_up_on_a_wall", float(np.mean(np.abs(x) > 0.999)) < 0.01)
